@@ -71,4 +71,81 @@ CLAIMS["C20"] = {
     "ref": "DESIGN.md 7 (C20)",
 }
 
+CLAIMS["C01"] = {
+    "text": "Theorems C01.bytes_accept_iff / str_accept_iff: for every byte string (every valid UTF-8 string), the entry point succeeds with result h iff the "
+            "input is h.header ++ rest, h.header has at most 107 bytes, is valid UTF-8 and is a well-formed line of the grammar Spec.V1.Line (PROXY UNKNOWN "
+            "[SP text] CRLF, or PROXY TCP4/TCP6 with dotted-quad IPv4 / RFC 4291 IPv6 text (Spec.V1.Ipv6Text) / plain decimal ports, single spaces, CRLF) denoting "
+            "exactly h.addresses. Built from V1.parseHeader_ok_iff, StdNet.parseIpv4_iff, V1.parsePort_iff and StdNet.parseIpv6_iff_text (the model of "
+            "Ipv6Addr::from_str accepts exactly the RFC 4291 forms). Correspondence: grammar-directed lines with distinct source/destination, single-element "
+            "mutations, every line ending, every prefix, all token strings up to 4 (quick) / 5 (thorough) tokens, lengths around 107, both entry points; an "
+            "independent Python grammar oracle is evaluated on the implementation's outputs; std parsers compared token-exhaustively.",
+    "note": BASE_NOTE + " Model includes the repairs D2 D3 D4 (fix: commits).", "ref": "DESIGN.md 7 (C01), 8",
+}
+CLAIMS["C03"] = {
+    "text": "Theorems C03.*: the panic-aware layer of the model (which panics wherever the Rust would: index/slice out of range, &str slice off a char boundary, "
+            "copy_from_slice mismatch, usize underflow) returns normally and equals the pure layer for every input of every entry point (v1 bytes, v1 text under "
+            "UTF-8 validity, v2, auto), for every accessor on every accepted header, for every iterator state; iteration yields at most n/3+1 items with strict "
+            "cursor progress. The driver runs the panic-aware layer, so the harness (catch_unwind per call) compares panic behaviour. Correspondence on all v1/v2/TLV "
+            "generators incl. multi-byte characters adjacent to CR, plus an in-process sweep over all token strings up to 5/6 tokens. PARTIAL: that the Rust loops "
+            "terminate is observed (step cap), not proved; the overflow-checks=off configuration is covered by the theorem that no checked subtraction underflows, "
+            "and the harness is built with overflow checks on.",
+    "note": BASE_NOTE, "ref": "DESIGN.md 7 (C03), 11",
+}
+CLAIMS["C04"] = {
+    "text": "Theorems C04.v2_trailing, v1_bytes_trailing, v1_str_trailing, auto_trailing, consumed_length: an accepted input followed by any bytes, and the "
+            "reported header alone, are accepted with the identical result; the header is a prefix of the input of length firstCR+2 (v1) / 16+declared length (v2). "
+            "Correspondence: accepted headers x 13 trailers x 4 entry points; in-process sweep.",
+    "note": BASE_NOTE, "ref": "DESIGN.md 7 (C04)",
+}
+CLAIMS["C05"] = {
+    "text": "Theorems C05.v2_prefix_incomplete, v1_bytes/str_prefix_incomplete (US-ASCII lines), auto_prefix_incomplete, flags, and the history forms "
+            "streaming_v2 / streaming_v1 (a receiver re-parsing its growing buffer ends with the one-shot result for every split of the stream into reads, by "
+            "induction over the read list). Correspondence: every cut of generated accepted headers through all entry points; in-process sweep.",
+    "note": BASE_NOTE + " Model includes the repairs D5 and D2.", "ref": "DESIGN.md 7 (C05)",
+}
+CLAIMS["C06"] = {
+    "text": "Theorems C06.auto_def, tag_v1, tag_v2, accept_iff, never_both, incomplete_iff, terminal_otherwise, possible_v2_never_v1 for every byte string. "
+            "Correspondence: auto / v1 / v2 on the same input over the union of the v1 and v2 generators plus mixtures and every signature prefix.",
+    "note": BASE_NOTE, "ref": "DESIGN.md 7 (C06)",
+}
+CLAIMS["C08"] = {
+    "text": "Theorems C08.format_is_line, format_length (<= 107, in fact <= 104), format_parses_back (all four text entry points return the identical value), "
+            "format_injective, display_is_header for EVERY address value (Unknown, all IPv4 pairs, all 2^128 x 2^128 IPv6 pairs, all ports), from "
+            "StdNet.parseIpv6_displayIpv6 (IPv6 Display/from_str round trip incl. IPv4-mapped and every :: compression), parseIpv4_iff, parsePort_iff. "
+            "Correspondence: op rt1 (format, then parse back four ways, on the real crate) over all 256 zero-run patterns x fillers, ports, random pairs; std Display "
+            "and from_str compared with the model exhaustively on ports / token-exhaustively on addresses.",
+    "note": BASE_NOTE, "ref": "DESIGN.md 7 (C08)",
+}
+CLAIMS["C12"] = {
+    "text": "Theorems C12.v2_signature/version/command/family/transport/length (+ terminal) for Spec.V2.encode with one element replaced, general forms V2.blame_*; "
+            "C12.v1_keyword/protocol/source_address/destination_address/source_port/destination_port/suffix/limit_and_utf8 (V1.Blame.G1..G11) for a v1 line with one "
+            "SP/CR-free element replaced, at parse_header and at both entry points, all terminal, also through auto-detection. Correspondence: mutation table x "
+            "well-formed lines, all invalid nibbles x valid control pairs, too-small lengths, altered signature bytes.",
+    "note": BASE_NOTE + " Model includes the repairs D4 and D6.", "ref": "DESIGN.md 7 (C12)",
+}
+CLAIMS["C15"] = {
+    "text": "Theorems C15.protocol_matches, reassemble, reassemble_sep, addressesStr_cases, display_is_header, addressesStr_no_panic for every accepted v1 header "
+            "(any input). Correspondence: view fields of accepted headers incl. UNKNOWN lines with empty/long/multi-space/non-ASCII text.",
+    "note": BASE_NOTE, "ref": "DESIGN.md 7 (C15)",
+}
+CLAIMS["C16"] = {
+    "text": "Theorems C16.entry_points_agree, entry_points_agree_too_long, mid_char_all_errors (every valid UTF-8 string; from Utf8.valid_take_iff_boundary), "
+            "owned_equal. PARTIAL: 'remains valid after the input buffer is overwritten or dropped' is a memory-safety fact outside the model (ownership is erased); "
+            "it is observed by the harness (buffer overwritten with 0xAA and dropped before comparing) on every accepted header and TLV. Correspondence: four entry "
+            "points on every valid-UTF-8 input of the v1 pool incl. multi-byte characters on both sides of the CR; in-process sweep.",
+    "note": BASE_NOTE + " Model includes the repair D1.", "ref": "DESIGN.md 7 (C16), 11",
+}
+CLAIMS["C18"] = {
+    "text": "Theorems C18.frozen_complete_bytes / frozen_complete_str (every frozen input yields a success or terminal error), frozen_stable_bytes (after the first "
+            "CR + 1 byte no continuation changes the result), frozen_long_bytes; core V1.parseHeader_terminated accounts for every incomplete return site. "
+            "Correspondence: every frozen input of the v1 pool and token strings; in-process sweep over all token strings up to 5/6 tokens.",
+    "note": BASE_NOTE + " Model includes the repair D6.", "ref": "DESIGN.md 7 (C18)",
+}
+CLAIMS["C19"] = {
+    "text": "Theorems C19.* (field equalities for every constructor and conversion, v1/v2 agreement); immediate in the model — the assurance is the "
+            "correspondence: argument tuples with pairwise distinct components through every real constructor, all SocketAddr pairings with non-zero flow-info/scope, "
+            "so any transposition in the Rust is a disagreement.",
+    "note": BASE_NOTE, "ref": "DESIGN.md 7 (C19)",
+}
+
 NOT_YET = {}
